@@ -46,7 +46,7 @@ func runC26(c *Ctx) {
 	e.sh.limit = 60
 
 	// (a) structured scenarios, evaluated in Coq too
-	for i := 0; i < c.pick(70, 900); i++ {
+	for i := 0; i < c.pick(110, 900); i++ {
 		e.sub(func() { e.scenario(i) })
 	}
 	// (b) volumes: entry counts from 1 to tens (quick) / hundreds (thorough) of thousands, rates across (0,1)
